@@ -8,8 +8,15 @@
 //! cross-check; a twin executor that ran the same state but not the command is compared too,
 //! including a destructive probe for expiry entries left behind on absent keys.
 //! If the reply is an Error, or `cmd.is_read_only()`, everything must be equal.
+//!
+//! Further sub-checks: `sharded_entry` and `replicated_wal` (`entry.rs`) state the same oracle
+//! through `ShardedActorState::execute` (generated shard count / key placement) and
+//! `ReplicatedShardedState::execute` (generated WAL configuration and WAL-store faults), observing
+//! the keyspace through that same entry point; `big_values` (`big.rs`) is an enumerated sweep of
+//! large elements.
 
 mod big;
+mod entry;
 mod forms;
 mod state;
 
@@ -31,7 +38,7 @@ use vcore::{CaseCtx, Level, Session};
 // ---------------------------------------------------------------------------------------
 
 #[derive(Clone, Debug, Serialize, Deserialize)]
-enum Final {
+pub enum Final {
     Direct(Argv),
     /// `EVAL <SCRIPTS[shape]> 1 <key> <inner…>`: `inner` arrives as ARGV, `key` as KEYS[1]
     Script { shape: u8, key: Vec<u8>, inner: Argv },
@@ -60,7 +67,7 @@ const SCRIPTS: &[(&str, bool)] = &[
 ];
 
 impl Final {
-    fn argv(&self) -> Argv {
+    pub(crate) fn argv(&self) -> Argv {
         match self {
             Final::Direct(a) => a.clone(),
             Final::Script { shape, key, inner } => {
@@ -72,13 +79,13 @@ impl Final {
         }
     }
     /// the command whose failure is looked at (the script's generated call, or the command)
-    fn inner(&self) -> &Argv {
+    pub(crate) fn inner(&self) -> &Argv {
         match self {
             Final::Direct(a) => a,
             Final::Script { inner, .. } => inner,
         }
     }
-    fn effect_first(&self) -> bool {
+    pub(crate) fn effect_first(&self) -> bool {
         match self {
             Final::Direct(_) => false,
             Final::Script { shape, .. } => SCRIPTS[*shape as usize % SCRIPTS.len()].1,
@@ -104,7 +111,7 @@ fn any_command() -> BoxedStrategy<Argv> {
 }
 
 /// A last-moment setup aimed at one failure: (extra steps, command).
-fn aimed() -> BoxedStrategy<(Vec<Step>, Argv)> {
+pub(crate) fn aimed() -> BoxedStrategy<(Vec<Step>, Argv)> {
     (any::<u16>(), any::<u16>(), 0u8..30, vcore::gen::value(), 0u8..4)
         .prop_map(|(i1, i2, sel, v, ttl)| {
             let k = pool_key(i1);
@@ -161,7 +168,7 @@ fn aimed() -> BoxedStrategy<(Vec<Step>, Argv)> {
         .boxed()
 }
 
-fn final_command() -> BoxedStrategy<Final> {
+pub(crate) fn final_command() -> BoxedStrategy<Final> {
     prop_oneof![
         8 => any_command().prop_map(Final::Direct),
         1 => (0u8..SCRIPTS.len() as u8, any::<u16>(), any_command()).prop_map(|(shape, k, inner)| {
@@ -179,7 +186,7 @@ fn final_command() -> BoxedStrategy<Final> {
 // oracle
 // ---------------------------------------------------------------------------------------
 
-fn diff_dumps(before: &Dump, after: &Dump) -> String {
+pub(crate) fn diff_dumps(before: &Dump, after: &Dump) -> String {
     let mut s = String::new();
     for (k, v) in before {
         match after.get(k) {
@@ -266,6 +273,58 @@ fn is_known_pop_before_type_check(inner: &Argv, reply: &Reply, before: &Dump, af
     expected == *after
 }
 
+
+/// Labels shared by all tiers (`pre` distinguishes the tier in the evidence).
+pub(crate) fn label_reply(ctx: &mut CaseCtx<'_>, pre: &str, cmd: &Command, reply: &Reply, script: bool) {
+    if cmd.is_read_only() {
+        ctx.label(&format!("{}read_only", pre));
+    }
+    if reply.is_error() {
+        ctx.label(&format!("{}error:{}", pre, reply.error_code().unwrap_or_default()));
+        let t = reply.error_text().unwrap_or_default();
+        for (needle, class) in [
+            ("would overflow", "why:int_overflow"),
+            ("NaN or Infinity", "why:float_overflow"),
+            ("hash value is not an integer", "why:hash_not_int"),
+            ("not an integer or out of range", "why:not_int"),
+            ("not a valid float", "why:not_float"),
+            ("index out of range", "why:index_range"),
+            ("no such key", "why:no_such_key"),
+            ("invalid expire time", "why:expire_time"),
+            ("maximum allowed size", "why:string_size"),
+            ("bit offset", "why:bit_offset"),
+            ("min or max", "why:score_bound"),
+            ("without MULTI", "why:no_multi"),
+            ("NOSCRIPT", "why:noscript"),
+            ("value is out of range", "why:decrby_min"),
+        ] {
+            if t.contains(needle) {
+                ctx.label(&format!("{}{}", pre, class));
+            }
+        }
+        if t.contains("WRONGTYPE") && cmd.get_keys().len() >= 2 {
+            ctx.label(&format!("{}why:wrongtype_two_key", pre));
+        }
+    }
+    if script {
+        ctx.label(&format!("{}script", pre));
+    }
+}
+
+/// The non-trivial rule shared by all tiers: the oracle applies and the command fails for a
+/// reason other than arity / unknown command, or names >= 2 keys, or has >= 4 elements.
+pub(crate) fn nontrivial_kind(cmd: &Command, inner: &Argv, reply: &Reply) -> Option<String> {
+    let text = reply.error_text().unwrap_or_default();
+    let arity_like = text.contains("wrong number of arguments")
+        || text.contains("unknown command")
+        || text.contains("Unknown Redis command");
+    if (reply.is_error() && !arity_like) || cmd.get_keys().len() >= 2 || inner.len() >= 4 {
+        Some(text.chars().take(48).collect())
+    } else {
+        None
+    }
+}
+
 fn check(case: &Case, ctx: &mut CaseCtx<'_>) -> Result<(), String> {
     let argv = case.fin.argv();
     let inner = case.fin.inner().clone();
@@ -310,39 +369,7 @@ fn check(case: &Case, ctx: &mut CaseCtx<'_>) -> Result<(), String> {
 
     let ro = cmd.is_read_only();
     let failed = reply.is_error();
-    if ro {
-        ctx.label("read_only");
-    }
-    if failed {
-        ctx.label(&format!("error:{}", reply.error_code().unwrap_or_default()));
-        let t = reply.error_text().unwrap_or_default();
-        for (needle, class) in [
-            ("would overflow", "why:int_overflow"),
-            ("NaN or Infinity", "why:float_overflow"),
-            ("hash value is not an integer", "why:hash_not_int"),
-            ("not an integer or out of range", "why:not_int"),
-            ("not a valid float", "why:not_float"),
-            ("index out of range", "why:index_range"),
-            ("no such key", "why:no_such_key"),
-            ("invalid expire time", "why:expire_time"),
-            ("maximum allowed size", "why:string_size"),
-            ("bit offset", "why:bit_offset"),
-            ("min or max", "why:score_bound"),
-            ("without MULTI", "why:no_multi"),
-            ("NOSCRIPT", "why:noscript"),
-            ("value is out of range", "why:decrby_min"),
-        ] {
-            if t.contains(needle) {
-                ctx.label(class);
-            }
-        }
-        if t.contains("WRONGTYPE") && cmd.get_keys().len() >= 2 {
-            ctx.label("why:wrongtype_two_key");
-        }
-    }
-    if matches!(case.fin, Final::Script { .. }) {
-        ctx.label("script");
-    }
+    label_reply(ctx, "", &cmd, &reply, matches!(case.fin, Final::Script { .. }));
     if !ro && !failed {
         ctx.label("effectful_ok");
         return Ok(());
@@ -356,19 +383,13 @@ fn check(case: &Case, ctx: &mut CaseCtx<'_>) -> Result<(), String> {
 
     // non-trivial: fails for a reason other than arity / unknown command, or names >= 2 keys
     // or elements
-    let text = reply.error_text().unwrap_or_default();
-    let arity_like = text.contains("wrong number of arguments")
-        || text.contains("unknown command")
-        || text.contains("Unknown Redis command");
-    if (failed && !arity_like) || cmd.get_keys().len() >= 2 || inner.len() >= 4 {
+    if let Some(t) = nontrivial_kind(&cmd, &inner, &reply) {
         let types: Vec<String> = inner
             .iter()
             .skip(1)
             .take(3)
             .map(|k| before.get(k).map(|d| d.ty.clone()).unwrap_or_else(|| "-".into()))
             .collect();
-        let t = text.clone();
-        let t: String = t.chars().take(48).collect();
         ctx.nontrivial(&(name.clone(), matches!(case.fin, Final::Script { .. }), t, types));
     }
 
@@ -443,6 +464,12 @@ fn rss() -> String {
         .join(" ")
 }
 
+// base sizes (the quick tier is multiplied by the work factor of tools/scale.sh, 800 %)
+const SHARDED_QUICK: u32 = 6_000;
+const SHARDED_THOROUGH: u32 = 400_000;
+const REPL_QUICK: u32 = 4_000;
+const REPL_THOROUGH: u32 = 300_000;
+
 fn main() {
     let args = vcore::parse_args();
     let s = Session::new(
@@ -481,6 +508,11 @@ fn main() {
         },
     );
 
+    // development aid (never set by ./check or the manifest): C17_ONLY=<sub-check> runs only that one
+    let only = std::env::var("C17_ONLY").ok();
+    let want = |name: &str| only.as_deref().map(|o| o == name).unwrap_or(true);
+
+    if want("fail_or_ro") {
     s.run_cases(
         "fail_or_ro",
         s.scale(150_000, 6_000_000),
@@ -501,6 +533,28 @@ fn main() {
         },
         check,
     );
+    }
+
+    // the same oracle through the production entry points above the bare executor
+    s.describe_check(
+        "sharded_entry",
+        "case = (shard count 1/2/3/4/5/7/8/16, key suffix 0..3 (placement), state steps, one command) on ShardedActorState<VerifTime>::execute; state and command from the generators of fail_or_ro (40 % aimed setups, the two-key failures among them). \
+         Observation through the same entry point before/after at a held clock: KEYS * as a sorted multiset, DBSIZE, per key TYPE / full value / PTTL. error reply or is_read_only() => equal. \
+         non-trivial = as fail_or_ro; distinct additionally by (shard count, the command's keys live on different shards)",
+    );
+    if want("sharded_entry") {
+        s.run_cases("sharded_entry", s.scale(SHARDED_QUICK, SHARDED_THOROUGH), entry::sharded_case, entry::check_sharded);
+    }
+    s.describe_check(
+        "replicated_wal",
+        "case = (WAL plan, key suffix, state steps, one command) on ReplicatedShardedState<VerifTime>::execute (16 shards). WAL plan: no WAL / Always (2 in 3) / EverySecond / No, group size 1/2/8, file size 64/200/1 MiB (rotation), \
+         a WalStore whose create/append/fsync calls fail at generated call indices, from a generated call on, or exactly around the command under test (create+append / fsync / both); delta sink absent / live / receiver gone; gossip queue on/off. \
+         Half of the commands are plain writes of the forwarded kinds (SET, INCR*, APPEND, GETSET, HSET, HDEL, HINCRBY, DEL, MSET), half from the general generator. Same observation and oracle as sharded_entry. \
+         non-trivial = as fail_or_ro; distinct additionally by (policy, sink, a WAL call was refused during the command)",
+    );
+    if want("replicated_wal") {
+        s.run_cases("replicated_wal", s.scale(REPL_QUICK, REPL_THOROUGH), entry::repl_case, entry::check_repl);
+    }
 
     // not scaled by the work factor: a fixed handful of large-value cases, run one at a time
     s.describe_check(
@@ -517,7 +571,9 @@ fn main() {
     if std::env::var("C17_RSS").is_ok() {
         eprintln!("before big_values: {}", rss());
     }
-    s.run_enumerated("big_values", big::big_cases().into_iter(), big::check_big);
+    if want("big_values") {
+        s.run_enumerated("big_values", big::big_cases().into_iter(), big::check_big);
+    }
     if std::env::var("C17_RSS").is_ok() {
         eprintln!("after big_values: {}", rss());
     }
